@@ -1559,3 +1559,66 @@ Proof. vm_compute. reflexivity. Qed.
 Lemma bool_decode_insensitive s1 s2 y :
   lower_ascii (py_strip s1) = lower_ascii (py_strip s2) -> decode KBool s1 y = decode KBool s2 y.
 Proof. intro H. unfold decode. rewrite H. reflexivity. Qed.
+
+(* ====================================================================== *)
+(* Sharing of container objects between the global config and its copies  *)
+(* ====================================================================== *)
+
+Lemma coercing_some E e v co : coercing e = true -> validate E e v = Ok co -> exists x, co = Some x.
+Proof.
+  destruct e; try discriminate. cbn [coercing validate]. intros C H.
+  apply orb_true_iff in C as [C|C]; [apply orb_true_iff in C as [C|C]|]; apply str_eqb_eq in C; subst name.
+  - rewrite custom_ext in H. unfold check_extensions in H. destruct v; try discriminate H;
+      (destruct (existsb unhashable l); [discriminate|]); (destruct (forallb _ l); [|discriminate]); inv H; eauto.
+  - rewrite custom_fence in H. unfold check_fence_as_directive in H. destruct v; try discriminate H;
+      (destruct (forallb is_str l); [|discriminate]); inv H; eauto.
+  - rewrite custom_url in H. unfold check_url_schemes in H.
+    destruct v; simpl in H; try discriminate H;
+      try (destruct (forallb is_str l); simpl in H; [|discriminate]);
+      (destruct (url_scheme_entries _); simpl in H; [|discriminate]); inv H; eauto.
+Qed.
+
+(* the tagged run is the plain run with tags *)
+Lemma validate_fields_o_erase E fs : forall c r,
+  validate_fields_o E fs c = Ok r -> validate_fields E fs (erase_o c) = Ok (erase_o r).
+Proof.
+  induction fs as [|f fs IH]; intros c r H; destruct c as [|[[n v] o] c]; simpl in H; try discriminate.
+  - inv H. reflexivity.
+  - simpl. destruct (validate E (f_val f) v) as [co|]; simpl in *; [|discriminate].
+    destruct (validate_fields_o E fs c) as [rest|] eqn:R; simpl in H; [|discriminate].
+    inv H. rewrite (IH c rest R). reflexivity.
+Qed.
+
+Lemma validate_fields_o_fresh E fs : forall c r f,
+  validate_fields_o E fs c = Ok r -> map (fun x => fst (fst x)) c = map f_name fs ->
+  nodup_names (map f_name fs) = true -> In f fs -> coercing (f_val f) = true ->
+  shares_field (f_name f) r = false.
+Proof.
+  induction fs as [|g fs IH]; intros c r f H K ND Hin C; [destruct Hin|].
+  destruct c as [|[[n v] o] c]; simpl in H; try discriminate.
+  destruct (validate E (f_val g) v) as [co|] eqn:V; simpl in H; [|discriminate].
+  destruct (validate_fields_o E fs c) as [rest|] eqn:R; simpl in H; [|discriminate].
+  inv H. simpl in K. injection K as K1 K2. simpl in ND. apply nodup_cons in ND as [Hnot ND].
+  simpl. destruct Hin as [->|Hin].
+  - rewrite K1, str_eqb_refl. destruct (coercing_some _ _ _ _ C V) as [x ->]. reflexivity.
+  - destruct (str_eqb n (f_name f)) eqn:E0.
+    + apply str_eqb_eq in E0. exfalso. apply Hnot. rewrite <- K1, E0. apply in_map. exact Hin.
+    + eapply IH; eassumption.
+Qed.
+
+(* copy: a field with a coercing validator never shares its container with the copied config *)
+Theorem copy_shares_nothing_coercing E fs c changes r f :
+  nodup_names (map f_name fs) = true -> In f fs -> coercing (f_val f) = true ->
+  copy_o E fs c changes = Ok r -> shares_field (f_name f) r = false.
+Proof.
+  intros ND Hin C H. unfold copy_o in H. destruct (negb _); [discriminate|].
+  eapply validate_fields_o_fresh; try eassumption.
+  rewrite map_map. reflexivity.
+Qed.
+
+Theorem copy_o_is_copy E fs c changes r :
+  copy_o E fs c changes = Ok r -> copy E fs c changes = Ok (erase_o r).
+Proof.
+  unfold copy_o, copy, mk_config. destruct (negb _); [discriminate|]. intro H.
+  apply validate_fields_o_erase in H. unfold erase_o in H at 1. rewrite map_map in H. exact H.
+Qed.
